@@ -1,5 +1,5 @@
 """Loop contracts of the smart-sleep code (C07/C08): invariants keyed by function and ordinal."""
-from pyvc.contract import Loop, as_str, forall, frame_except, implies, is_none, is_prefix, same_dict, same_item
+from pyvc.contract import Loop, all_addressed, as_str, forall, frame_except, implies, is_none, is_prefix, same_dict, same_item
 
 
 def init_inv(L, old, G, V):
@@ -29,6 +29,9 @@ def flush_queue_inv(L, old, G):
         frame_except(L.sensor, old.sensor, "queue")
         and (old.G.sent + old.sensor.queue == G.sent + L.sensor.queue)
         and G.rawjobs + len(L.sensor.queue) == old.G.rawjobs + len(old.sensor.queue)
+        # what is still withheld is for this node, and so was everything handed over so far
+        and all_addressed(L.sensor.queue, L.msg.node_id)
+        and implies(old.G.jobs_ok, G.jobs_ok)
     )
 
 
@@ -48,6 +51,7 @@ def desired_outer_inv(L, old, G, V):
     of the visited children, carrying the desired value; none for the others; replies stay a prefix."""
     return (
         is_prefix(old.G.sent, G.sent)
+        and implies(old.G.jobs_ok, G.jobs_ok)
         and len(G.sent) == len(old.G.sent) + (G.setjobs - old.G.setjobs)
         and G.setjobs >= old.G.setjobs
         and forall(
@@ -62,6 +66,7 @@ def desired_inner_inv(L, old, G, V):
     """for value_type in child.values: as above, plus the visited value types of the current child"""
     return (
         is_prefix(old.G.sent, G.sent)
+        and implies(old.G.jobs_ok, G.jobs_ok)
         and len(G.sent) == len(old.G.sent) + (G.setjobs - old.G.setjobs)
         and G.setjobs >= old.G.setjobs
         and forall(
@@ -77,8 +82,8 @@ def desired_inner_inv(L, old, G, V):
 
 
 LOOPS = {
-    ("mysensors.handler", "handle_smartsleep", 1): Loop(desired_outer_inv, ghosts=["sent", "setcount", "setpay", "setjobs"]),
-    ("mysensors.handler", "handle_smartsleep", 2): Loop(desired_inner_inv, ghosts=["sent", "setcount", "setpay", "setjobs"]),
+    ("mysensors.handler", "handle_smartsleep", 1): Loop(desired_outer_inv, ghosts=["sent", "setcount", "setpay", "setjobs", "jobs_ok"]),
+    ("mysensors.handler", "handle_smartsleep", 2): Loop(desired_inner_inv, ghosts=["sent", "setcount", "setpay", "setjobs", "jobs_ok"]),
     ("mysensors.sensor", "Sensor.init_smart_sleep_mode", 0): Loop(init_inv, modifies=["sensors.new_state"], rows={"sensors.new_state": "self"}),
-    ("mysensors.handler", "handle_smartsleep", 0): Loop(flush_queue_inv, modifies=["sensors.queue"], rows={"sensors.queue": "sensor"}, ghosts=["sent", "rawjobs"]),
+    ("mysensors.handler", "handle_smartsleep", 0): Loop(flush_queue_inv, modifies=["sensors.queue"], rows={"sensors.queue": "sensor"}, ghosts=["sent", "rawjobs", "jobs_ok"]),
 }
